@@ -79,7 +79,8 @@ ENTITIES = [
     "&NewLine;", "&bad;", "&amp", "&;", "&#;", "&#x;", "&x;", "&#35;", "&#1234;", "&#992;", "&#0;",
     "&#X22;", "&#XD06;", "&#xcab;", "&#87654321;", "&#abcdef0;", "&#xD800;", "&#xDFFF;", "&#x110000;",
     "&#1;", "&#13;", "&#10;", "&#9;", "&#32;", "&#127;", "&#128;", "&#xFFFE;", "&#x1FFFF;", "&#65;",
-    "&#x41;", "&#x0041;", "&#00000065;", "&#x00000041;", "&#12345678;", "&lbrack;", "&ast;", "&lowbar;",
+    "&#x41;", "&#x0041;", "&#00000065;", "&#x00000041;", "&#12345678;", "&#x1000000;", "&#xFFFFFFF0;", "&#99999999;", "&#x7FFFFFFF;", "&#16777216;",
+    "&#xFDF0;", "&#xFDFA;", "&#xFDCF;", "&#xFFFD;", "&#x10FFFD;", "&#xD7FF;", "&#xE000;", "&#160;", "&#xFEFF;", "&lbrack;", "&ast;", "&lowbar;",
     "&grave;", "&bsol;", "&excl;", "&num;", "&lpar;", "&rpar;", "&vert;", "&apos;",
 ]
 SCHEMES = ["http", "https", "mailto", "ftp", "javascript", "vbscript", "file", "data", "JaVaScRiPt", "x", "a+b.c-d"]
@@ -113,7 +114,7 @@ LEAVES = [
     "**s**", "`c`", "``", "a|b", "-|-", "|a|b|", "|-|-|", ":-:|-:", "1|2", "a\\|b|c", "|", "|-", "-|", ":-", "a  ", "a\\",
     "&amp;", "&#35;", "\\*x", "<http://a.b>", "<a@b.c>", "~~s~~", "a_b_c", "\"q\" 'r'", "(c) ... --", "http://x.y",
     "  a", "   a", " - a", "  - b", "   - c", "    - d", "  1. x", "   > z", "\\", "`", "* * a", "- # h", "> ```", "- ```",
-    ">     c", "². a", "①) a", "٣. a", "1２. a", "-\ta", ">\ta", "1.\ta", "[a]: /u \"t", "[a]: <u", "[", "]", "![", "](", "\"", "'", "a\u00a0", "\u00a0a", "\x0bx",
+    ">     c", "- \x0c", "1. \u3000", "- \xa0", "> \x0b", "\x0c", "\u2028", "-\x0c\n- b", "². a", "①) a", "٣. a", "1２. a", "-\ta", ">\ta", "1.\ta", "[a]: /u \"t", "[a]: <u", "[", "]", "![", "](", "\"", "'", "a\u00a0", "\u00a0a", "\x0bx",
 ]
 CONTAINER_PREFIXES = [
     "> ", ">", " > ", "- ", "  ", "    ", "   ", "1. ", "* ", "+ ", "> - ", "- > ", "> > ", ">> ", "   - ", "10) ",
@@ -147,6 +148,9 @@ def url(d: D) -> str:
 
 def link_dest(d: D) -> str:
     u = url(d)
+    if d.chance(0.12):
+        # every character reference in every place references are decoded
+        u = u + d.pick(ENTITIES)
     k = d.i(0, 5)
     if k == 0:
         return "<" + u + ">"
@@ -162,6 +166,8 @@ def link_title(d: D) -> str:
     if k < 2:
         return ""
     t = d.pick(TITLES)
+    if d.chance(0.12):
+        t = t + d.pick(ENTITIES)
     q = d.pick(['""', "''", "()", '""'])
     if d.chance(0.8):
         t = t.replace(q[0], "\\" + q[0]).replace(q[1], "\\" + q[1])
@@ -243,7 +249,7 @@ def inline_atom(d: D, depth: int, oneline: bool) -> str:
             return d.pick(["  ", " ", "\t", "\\"])
         return d.pick(["\n", "  \n", "   \n", "\\\n", " \n", "\t\n", "\n  ", "\n\t"])
     if k == "typo":
-        return d.pick(['"', "'", '"q"', "'r'", "don't", "(c)", "(C)", "(tm)", "(r)", "(p)", "+-", "...", "....", "?....", "!....", "?!..", "!!!!", "???", ",,", "--", "---", "----", "a--b", "a -- b", "1\"", "5'", "\"'", "'\"", "''", '""', "\"a 'b' c\"", "'a \"b\" c'"])
+        return d.pick(['"', "'", '"q"', "'r'", "don't", "(c)", "(C)", "(tm)", "(tM)", "(Tm)", "(TM)", "(R)", "(r)", "(p)", "+-", "...", "....", "?....", "!....", "?!..", "!!!!", "???", ",,", "--", "---", "----", "a--b", "a -- b", "1\"", "5'", "\"'", "'\"", "''", '""', "\"a 'b' c\"", "'a \"b\" c'"])
     if k == "urlish":
         return d.pick(["http://a.b", "https://x.y/z?q=1&r=2", "www.a.b", "a@b.c", "ftp://f.g/h", "http://a.b/c_d_e", "http://a.b/*x*", "javascript://x", "mailto:a@b.c", "http://a.b.", "http://a.b/(c)", "x://y", "http://\"q\"", "file://x/y", "http://a.b/'q'"])
     # unbalanced
@@ -317,6 +323,8 @@ def _para_lines(d: D, maxl: int = 3) -> list[str]:
 def refdef_lines(d: D) -> list[str]:
     lab = label(d)
     dest = d.pick(["/u", "<a b>", "http://x.y/?q=1&r=2", "u(v)w", "\\(x", "&amp;x", "javascript:x", "/ü", "#f", "<>", "<", "u\"t\"", "/a*b"])
+    if d.chance(0.1):
+        dest = dest + d.pick(ENTITIES)
     title = d.pick(["", "", ' "t"', " 't u'", " (p)", ' "a \\" b"', '\n"t2"', '\n  "multi\nline"', ' "un', " x", '\n"bad" x', ' "t"  '])
     sep = d.pick([" ", " ", "\n", "  ", "\n   ", "\t", ""])
     ind = d.pick(["", "", "", " ", "   "])
@@ -374,6 +382,8 @@ def leaf_block(d: D, tabs: bool) -> list[str]:
         n = d.i(3, 5)
         info = d.pick(["", "", "py", " py ", "py x=1", "a`b" if ch == "~" else "a~b", "&amp;", "\\*", "<b>", "\"q\"", "py\tz" if tabs else "py z", "é", " ", "a\\ b", "{.x}", "&#35;", "\x0b", "\u00a0", "\u2003 ", "&#10;", "&NewLine;", "&#32;", "&nbsp;", " \x0c\x1f", "\u3000x"])
         ind = d.pick(["", "", " ", "  ", "   "])
+        if d.chance(0.1):
+            info = info + d.pick(ENTITIES)
         body = []
         for _ in range(d.i(0, 3)):
             body.append(d.pick(["", "", " ", "  "]) + d.pick(["x", "", "  y", ch * 2, ch * n + " z", "> q", "- l", "<b>", "&amp;", "    i", "\tt" if tabs else "  t", "[a]: /u", "```" if ch == "~" else "~~~"]))
@@ -545,7 +555,7 @@ def perturb(d: D, src: str, tabs: bool = True) -> str:
     k = d.weighted(
         [
             (40, "none"), (12, "truncate"), (6, "dropline"), (4, "dupline"), (4, "swap"), (8, "hot"), (6, "nofinal"),
-            (7, "tabify" if tabs else "none"), (3, "unprefix"), (3, "crlf"), (2, "nul"), (3, "hotline"), (8, "lookalike"),
+            (7, "tabify" if tabs else "none"), (3, "unprefix"), (3, "crlf"), (2, "nul"), (3, "hotline"), (8, "lookalike"), (4, "casing"),
         ]
     )
     if k == "none" or not src:
@@ -554,6 +564,13 @@ def perturb(d: D, src: str, tabs: bool = True) -> str:
         return src[: d.i(0, len(src))]
     if k == "lookalike":
         return lookalike(d, src)
+    if k == "casing":
+        # case-insensitive matching followed by case-sensitive lookup is a classic: flip the case of one letter
+        idxs = [i for i, ch in enumerate(src) if ch.isascii() and ch.isalpha()]
+        if idxs:
+            i = d.pick(idxs)
+            return src[:i] + src[i].swapcase() + src[i + 1 :]
+        return src
     lines = src.split("\n")
     if k == "dropline":
         i = d.i(0, len(lines) - 1)
@@ -746,7 +763,12 @@ def config_d(d: D, html: bool | None = None, allow_linkify: bool = True, bare_bi
             linkify = True
     if html is not None:
         opts["html"] = html
-    return {"preset": preset, "options": opts, "enable": en, "disable": dis, "linkify": linkify}
+    return {"preset": preset, "options": opts, "enable": en, "disable": dis, "linkify": linkify, "late": d.chance(0.25)}
+
+
+def maybe_late(d: D, cfg: dict, p: float = 0.25) -> dict:
+    """A copy of cfg that is, with probability p, applied to an instance that was already used (see cfg.build)."""
+    return dict(cfg, late=True) if d.chance(p) else cfg
 
 
 @st.composite
